@@ -36,7 +36,7 @@ const (
 type packetCase struct {
 	Denom    string // "uatom" (foreign coin), "other" (unregistered foreign coin), "native" (returning stake)
 	Amount   string
-	Receiver string // "valid" | "malformed" | "blocked"
+	Receiver string // "valid" | "malformed" | "blocked" | "zero" (the zero address: the ERC-20 mint of the conversion reverts after the escrow step)
 }
 
 func (p packetCase) String() string { return fmt.Sprintf("%s amount=%s receiver=%s", p.Denom, p.Amount, p.Receiver) }
@@ -63,6 +63,8 @@ func Run(r *ev.Run, tier string) (evals, nontrivial int64) {
 			recv = "not-an-address"
 		case "blocked":
 			recv = authtypes.NewModuleAddress(authtypes.FeeCollectorName).String()
+		case "zero":
+			recv = sdk.AccAddress(make([]byte, 20)).String()
 		}
 		srcCh := channel
 		denom := pc.Denom
@@ -129,22 +131,22 @@ func Run(r *ev.Run, tier string) (evals, nontrivial int64) {
 	var packets []packetCase
 	for _, d := range []string{"uatom", "other", "native"} {
 		for _, a := range []string{"1", "3", "0", "abc", big256, "-1", ""} {
-			for _, rc := range []string{"valid", "malformed", "blocked"} {
+			for _, rc := range []string{"valid", "malformed", "blocked", "zero"} {
 				packets = append(packets, packetCase{d, a, rc})
 			}
 		}
 	}
-	observe := func(ctx sdk.Context) map[string]string {
+	observeFor := func(ctx sdk.Context, who sdk.AccAddress) map[string]string {
 		out := map[string]string{}
 		for _, d := range []string{voucher, "stake"} {
-			out["u1/"+d] = c.App.BankKeeper.GetBalance(ctx, u1.Acc, d).Amount.String()
+			out["u1/"+d] = c.App.BankKeeper.GetBalance(ctx, who, d).Amount.String()
 			out["module/"+d] = c.App.BankKeeper.GetBalance(ctx, authtypes.NewModuleAddress(aggregatetypes.ModuleName), d).Amount.String()
 		}
 		out["erc20/u1"] = "0"
 		if id := c.App.AggregateKeeper.GetDenomMap(ctx, voucher); len(id) > 0 {
 			if p, ok := c.App.AggregateKeeper.GetTokenPair(ctx, id); ok {
 				cc, _ := ctx.CacheContext()
-				if res, err := c.App.AggregateKeeper.CallEVM(cc, erc20ABI(), aggregatetypes.ModuleAddress, p.GetERC20Contract(), "balanceOf", common.BytesToAddress(u1.Acc)); err == nil {
+				if res, err := c.App.AggregateKeeper.CallEVM(cc, erc20ABI(), aggregatetypes.ModuleAddress, p.GetERC20Contract(), "balanceOf", common.BytesToAddress(who)); err == nil {
 					if vals, err := erc20ABI().Unpack("balanceOf", res.Ret); err == nil {
 						out["erc20/u1"] = fmt.Sprint(vals[0])
 					}
@@ -159,10 +161,14 @@ func Run(r *ev.Run, tier string) (evals, nontrivial int64) {
 		c.App.EvmKeeper.WithChainID(ctxM)
 		for i, pc := range seq {
 			pkt := mkPacket(pc, uint64(10+i))
-			beforeM := observe(ctxM)
+			who := u1.Acc
+			if pc.Receiver == "zero" {
+				who = sdk.AccAddress(make([]byte, 20))
+			}
+			beforeM := observeFor(ctxM, who)
 			ackM := mw.OnRecvPacket(ctxM, pkt, c.Accounts["rel"].Acc)
 			ackI := inner.OnRecvPacket(ctxI, pkt, c.Accounts["rel"].Acc)
-			afterM := observe(ctxM)
+			afterM := observeFor(ctxM, who)
 			evals++
 			desc := map[string]interface{}{"registry": stName, "packets": fmt.Sprint(seq), "index": i}
 			if evals%29 == 1 {
@@ -209,7 +215,7 @@ func Run(r *ev.Run, tier string) (evals, nontrivial int64) {
 			one(st.name, base, []packetCase{p})
 		}
 		// two packets in sequence (all pairs of a reduced set)
-		second := []packetCase{{"uatom", "1", "valid"}, {"uatom", "3", "valid"}, {"other", "1", "valid"}, {"native", "1", "valid"}, {"uatom", "abc", "valid"}}
+		second := []packetCase{{"uatom", "1", "valid"}, {"uatom", "3", "valid"}, {"other", "1", "valid"}, {"native", "1", "valid"}, {"uatom", "abc", "valid"}, {"uatom", "2", "zero"}}
 		first := second
 		if tier == "thorough" {
 			first = packets
